@@ -43,6 +43,11 @@ def cases(draw):
     if sp is not None:
         params = dict(params, startPoint=sp)      # the first trial is the image of x=0.5 whatever the start point
     mode = draw(st.sampled_from(["solve", "solve", "solve", "batches", "batches", "continue"]))
+    if draw(st.integers(0, 49)) == 0:
+        # a long run (1000-3000 trials): the smallest eps the float arithmetic allows, budget-stopped
+        params = dict(params, eps=gen.eps_min(recipe["n"], recipe["density"]),
+                      itersLimit=draw(st.sampled_from([1000, 2000, 3000])))
+        mode = "solve"
     if mode == "solve":
         drive = "solve"
     elif mode == "batches":
@@ -158,7 +163,8 @@ def body(case):
         classes.append("M-grew")
     if improved:
         classes.append("best-improved")
-    classes.append("trials<5" if len(hist) < 5 else ("trials<50" if len(hist) < 50 else "trials>=50"))
+    classes.append("trials<5" if len(hist) < 5 else ("trials<50" if len(hist) < 50 else
+                                                      ("trials>=1000" if len(hist) >= 1000 else "trials>=50")))
     nontrivial = len(hist) >= 5 and grew and improved
     sample = {"case": case, "trials": len(hist), "first_x": [h[0] for h in hist[:6]]}
     return nontrivial, classes, sample
